@@ -156,9 +156,30 @@ def rule_memo_inventory(repo, res, rule):
         key = [k for k, fi in facts.funcs.items() if fi.qual == memo]
         if not key:
             continue
-        readers = sorted({facts.funcs[k].qual for k in cg.edges if any(c == key[0] and t for c, t, n in cg.edges[k])})
+        rkeys = {k for k in cg.edges if any(c == key[0] and t for c, t, n in cg.edges[k])}
+        readers = sorted({facts.funcs[k].qual for k in rkeys})
+        accepted = set(known)
+        # (a) a renamed reader: exactly one confirmed reader of a class vanished and exactly one new reader appeared in it
+        vanished = [q for q in known if q not in readers]
+        new = [q for q in readers if q not in known]
+        for q in list(new):
+            cls = q.split('.')[0]
+            if len([v for v in vanished if v.split('.')[0] == cls]) == 1 and len([x for x in new if x.split('.')[0] == cls]) == 1:
+                accepted.add(q)
+        # (b) an extracted helper: a private function all of whose callers are accepted readers is part of their computation
+        changed = True
+        while changed:
+            changed = False
+            for k in rkeys:
+                fi = facts.funcs[k]
+                if fi.qual in accepted or not fi.name.startswith('_'):
+                    continue
+                callers = {facts.funcs[c].qual for c in cg.edges if c in facts.funcs and any(x == k for x, t, n in cg.edges[c])}
+                if callers and callers <= accepted:
+                    accepted.add(fi.qual)
+                    changed = True
         for r in readers:
-            res.check(rule, '%s reads %s' % (r, memo), r in known, 'supp/scope.py', 0,
+            res.check(rule, '%s reads %s' % (r, memo), r in accepted, 'supp/scope.py', 0,
                       '%s reads the memo %s, which can hold a table computed while a loop back edge was unresolved (C04-R1); '
                       'it is not among the readers confirmed on the reference tree: the partial table now reaches a new '
                       'consumer and its answers depend on the query order' % (r, memo),
